@@ -862,8 +862,8 @@ def run(ctx):
     for esp, n in ((edge_specs()[2], 333_333), (edge_specs()[3], 600_000 if ctx.quick() else 777_777)):
         seed = rng.randrange(2 ** 31)
         neval += 2
-        if not report(o_redraw(esp, n, seed), {"oracle": "redraw", "spec": esp, "n": n, "seed": seed}):
-            report(o_statistics(esp, n, seed, stats), {"oracle": "statistics", "spec": esp, "n": n, "seed": seed})
+        report(o_redraw(esp, n, seed), {"oracle": "redraw", "spec": esp, "n": n, "seed": seed})
+        report(o_statistics(esp, n, seed, stats), {"oracle": "statistics", "spec": esp, "n": n, "seed": seed})
     # sample sizes beyond a million that are not round numbers (marginal_icdf at tail probabilities asks for such samples)
     for esp, n in ((edge_specs()[2], 1_000_001), (edge_specs()[3], 2_500_000 if ctx.quick() else 3_333_333)):
         seed = rng.randrange(2 ** 31)
